@@ -224,3 +224,72 @@ func pathsPass(a, b ssa.Instruction, pred func(ssa.Instruction) bool) bool {
 	}
 	return !walk(a.Block(), an.InstrIndex(a)+1)
 }
+
+// c12FormatConstant: whatever a streamed transport writes with fmt.Fprintf uses a constant format; payload text (the JSON of a
+// response, an error message) only ever travels as an argument.  A payload used as the format string is rewritten by fmt
+// wherever it contains a '%' ("50% off" → "50%!o(MISSING)ff"; "100%" swallows the closing quote), so the event is no longer
+// the JSON that was produced.  When the format is a parameter of a same-package helper, every call site of that helper must
+// pass a constant for it.
+func c12FormatConstant(c *Ctx) {
+	c.R.Rule("format-constant", "every fmt.Fprintf / Fprintln-style formatted write in package transport has a constant format string (a format passed through a same-package helper's parameter is constant at every call site of the helper)", 4)
+	n := 0
+	var constAt func(fn *ssa.Function, v ssa.Value, depth int) (bool, string)
+	constAt = func(fn *ssa.Function, v ssa.Value, depth int) (bool, string) {
+		all := true
+		why := ""
+		for _, d := range an.Defs(v) {
+			if _, ok := an.ConstString(d); ok {
+				continue
+			}
+			if bo, ok := d.(*ssa.BinOp); ok && bo.Op == token.ADD {
+				okx, wx := constAt(fn, bo.X, depth)
+				oky, wy := constAt(fn, bo.Y, depth)
+				if okx && oky {
+					continue
+				}
+				all, why = false, wx+wy
+				continue
+			}
+			if p, ok := d.(*ssa.Parameter); ok && depth < 3 && p.Parent() == topFn(fn) && topFn(fn).Object() != nil && !topFn(fn).Object().Exported() {
+				idx := -1
+				for i, q := range topFn(fn).Params {
+					if q == p {
+						idx = i
+					}
+				}
+				sites := 0
+				for _, caller := range transportFuncs(c) {
+					for _, call := range an.CallsIn(caller, func(_ ssa.CallInstruction, ci an.CalleeInfo) bool { return ci.Static == topFn(fn) }) {
+						sites++
+						if idx >= len(call.Common().Args) {
+							all = false
+							continue
+						}
+						if ok2, w2 := constAt(caller, call.Common().Args[idx], depth+1); !ok2 {
+							all, why = false, "the format handed in at "+c.ipos(call)+" is not a constant"+w2
+						}
+					}
+				}
+				if sites == 0 {
+					all, why = false, "the format is a parameter of a helper without static callers"
+				}
+				continue
+			}
+			all, why = false, "the format is computed at run time ("+d.Name()+")"
+		}
+		return all, why
+	}
+	for _, fn := range transportFuncs(c) {
+		for _, call := range an.CallsIn(fn, func(_ ssa.CallInstruction, ci an.CalleeInfo) bool {
+			n := ci.FullName()
+			return n == "fmt.Fprintf" || n == "fmt.Sprintf" && false
+		}) {
+			n++
+			ok, why := constAt(fn, call.Common().Args[1], 0)
+			c.R.Check(ok, shortFn(topFn(fn))+"/Fprintf", c.ipos(call), "constant format", "a formatted write to the response uses a format string that is not constant: "+why+" — payload text containing '%' is rewritten by fmt and the client receives corrupted (possibly invalid) JSON")
+		}
+	}
+	if n < 4 {
+		c.R.Fail("format-constant found only %d fmt.Fprintf calls in package transport", n)
+	}
+}
